@@ -15,6 +15,7 @@ package main
 //            sql.ErrNoRows, sql.ErrTxDone, driver.ErrBadConn, io.ErrUnexpectedEOF); database/sql then returns
 //            false from rows.Next() and the error is visible ONLY through rows.Err()
 //   sqlite : a real run-time error of SQLite on one particular row (`abs(x)` overflow on a poisoned row)
+//   convert: one row holds TEXT in the integer column d: rows.Scan fails on that row for every destination
 //
 // E2E oracle (independent of the model).  Let E be the rows the chain selects (in-memory table).
 //   multi-row paths (Find/Scan into slices and map slices, Pluck, Scan(&primitive), Rows()+ScanRows loops, Count):
@@ -33,6 +34,8 @@ package main
 //     to a non-empty slice (scan.go), so the appended suffix is "the rows returned"; `Scan(&dest)` leaves dest
 //     untouched when the query returns no row (finisher_api.go Scan, else-branch), so with RowsAffected = 0 the
 //     content of a reused destination is not judged.
+//   convert fault: a path that reads the unconvertible cell (d selected, row within what it iterates) must report an
+//     error; nothing else is demanded of it
 //   FindInBatches: batches delivered to the callback are a prefix of E cut into batches; fault fired ⇒ error
 //     reported and no batch after the failing query; RowsAffected between rows delivered and rows delivered + k.
 // Correspondence (`scan.loop`): every step without fault or with a driver fault is replayed on the Lean model
@@ -235,6 +238,7 @@ type c15NRow struct {
 	C  *int `json:"c"` // index into c15NStr
 	D  int  `json:"d"`
 	P  bool `json:"p,omitempty"` // poisoned: x = MinInt64, abs(x) raises "integer overflow"
+	T  bool `json:"t,omitempty"` // column d holds the TEXT 'oops' (SQLite stores it in an INTEGER column): rows.Scan into an int fails
 }
 
 func c15ip(v int) *int { return &v }
@@ -277,7 +281,7 @@ type c15SChain struct {
 }
 
 type c15SFault struct {
-	Kind  string `json:"kind"` // driver | sqlite
+	Kind  string `json:"kind"` // driver | sqlite | convert
 	Row   int    `json:"row"`
 	Err   string `json:"err,omitempty"`
 	Query int    `json:"query,omitempty"` // FindInBatches: which of its queries fails
@@ -396,6 +400,13 @@ func (w *c15SWorld) fill(rows []c15NRow) {
 	}
 	if err := w.plain.Create(&recs).Error; err != nil {
 		panic(err)
+	}
+	for _, r := range rows {
+		if r.T {
+			if err := w.plain.Exec("UPDATE c15_nulls SET d = 'oops' WHERE id = ?", r.ID).Error; err != nil {
+				panic(err)
+			}
+		}
 	}
 }
 
@@ -1018,12 +1029,36 @@ func c15SJudge(scn *c15SScn, st c15SStep, obs *c15SObs) string {
 	if obs.Bad != "" {
 		return obs.Bad
 	}
-	if strings.HasPrefix(obs.Err, "other:") {
-		return "unexpected error " + obs.Err
-	}
 	fin, col := st.Path, ""
 	if i := strings.IndexByte(fin, ':'); i > 0 {
 		fin, col = fin[:i], fin[i+1:]
+	}
+	if scn.Fault != nil && scn.Fault.Kind == "convert" {
+		// a row whose integer column holds text: every path that READS that cell (column d selected, row within what the
+		// path iterates) must report an error — which one, and what it leaves in the destination, is not demanded
+		sel := scn.Chain.sel()
+		switch fin {
+		case "pluck":
+			sel = []string{col}
+		case "scanprim", "count":
+			sel = []string{"id"}
+		}
+		E := scn.Chain.expected(scn.Rows, c15PathLimited(fin))
+		badAt := -1
+		for i, r := range E {
+			if r.T && badAt < 0 {
+				badAt = i
+			}
+		}
+		if c15Has(sel, "d") && badAt >= 0 && (badAt == 0 || !c15PathSingle(fin)) {
+			if obs.Err == "" || obs.Err == "notfound" {
+				return fmt.Sprintf("row id %d holds text in the integer column d; the path read it and reported %q", E[badAt].ID, obs.Err)
+			}
+			return ""
+		}
+	}
+	if strings.HasPrefix(obs.Err, "other:") {
+		return "unexpected error " + obs.Err
 	}
 	single := c15PathSingle(fin)
 	limited := c15PathLimited(fin)
@@ -1387,6 +1422,13 @@ func c15GenSScn(rng *rand.Rand, maxN int) *c15SScn {
 	switch rng.Intn(10) {
 	case 0, 1, 2, 3, 4: // driver fault after k rows; k ranges over "before the first row" … "after the last"
 		scn.Fault = &c15SFault{Kind: "driver", Row: rng.Intn(n + 2), Err: c15FaultErrNames[rng.Intn(len(c15FaultErrNames))], Query: rng.Intn(3)}
+	case 7: // a value that cannot be converted into the destination field, on one row
+		if n > 0 {
+			scn.Fault = &c15SFault{Kind: "convert", Row: rng.Intn(n)}
+			scn.Rows[scn.Fault.Row].T = true
+			ch.DGe = 0
+			ch.Ord = []string{"id", "id desc"}[rng.Intn(2)]
+		}
 	case 5, 6: // SQLite run-time error on one row
 		if n > 0 {
 			scn.Fault = &c15SFault{Kind: "sqlite", Row: rng.Intn(n)}
